@@ -25,12 +25,18 @@ def rolling_window_fn():
         import ast
         import os
         from pathlib import Path
-        tree = ast.parse((Path(os.environ.get("VERIF_REPO", "/repo")) / "ioos_qc/qartod.py").read_text())
-        fl = next(n for n in tree.body if isinstance(n, ast.FunctionDef) and n.name == "flat_line_test")
-        rw = next(n for n in fl.body if isinstance(n, ast.FunctionDef) and n.name == "rolling_window")
-        ns = {"np": np}
-        exec(compile(ast.Module(body=[rw], type_ignores=[]), "<rolling_window>", "exec"), ns)  # noqa: S102
-        _RW.append(ns["rolling_window"])
+        _RW.append(None)
+        try:
+            tree = ast.parse((Path(os.environ.get("VERIF_REPO", "/repo")) / "ioos_qc/qartod.py").read_text())
+            fl = next(n for n in tree.body if isinstance(n, ast.FunctionDef) and n.name == "flat_line_test")
+            rw = next(n for n in fl.body if isinstance(n, ast.FunctionDef) and n.name == "rolling_window")
+            ns = {"np": np}
+            exec(compile(ast.Module(body=[rw], type_ignores=[]), "<rolling_window>", "exec"), ns)  # noqa: S102
+            _RW[0] = ns["rolling_window"]
+        except Exception:  # noqa: BLE001
+            # the helper is no longer a nested function of that name (a refactoring): the primitive `rollingWindow` is then not
+            # compared (exactly when the translated pin of flat_line_test is "unavailable"); nothing is claimed, nothing alarmed
+            pass
     return _RW[0]
 
 
@@ -163,6 +169,9 @@ def one(rng):
             w = rng.randint(0, n + 1)
             req["w"] = w
             rw = rolling_window_fn()
+            if rw is None:
+                req["op"] = "abs"
+                return req, canon_ma(np.abs(A))
             win = rw(A, w)
             mn, mx = np.min(win, 1), np.max(win, 1)
             tr = np.ma.filled(np.abs(mx - mn) < float(r), fill_value=False)
